@@ -268,3 +268,15 @@ def outside_tracer(fn, *args, **kw):
     which are nondeterministic under CrossHair's tracer). The obligation is then realisation-exhausted over its finite range."""
     with NoTracing():
         return fn(*args, **kw)
+
+
+def force_some(x, limit=6, depth=3):
+    """Force a value enough to run its generators: at most `limit` items per level (results may be infinite)."""
+    if isinstance(x, (list, LazyList)) and depth > 0:
+        i = 0
+        for y in x:
+            force_some(y, limit, depth - 1)
+            i += 1
+            if i >= limit:
+                break
+    return x
